@@ -116,11 +116,15 @@ Fixpoint sb_readlines (fuel : nat) (s : sbytes) (hint total : nat) (acc : list (
       else (s1, OLines acc)
   end.
 
+(* write(s): if self.tell() + len(s) >= self._max_size: self.rollover(); self.buffer.write(s) *)
+Definition sb_write (s : sbytes) (d : list N) : sbytes :=
+  let s1 := if sb_max s <=? f_tell (sb_buf s) + length d then sb_rollover s else s in
+  sb_with s1 (f_write (sb_buf s1) d).
+
 Definition sb_step (s : sbytes) (op : fop) : sbytes * fobs :=
   match op with
-  | Write d =>
-      let s1 := if sb_max s <=? f_tell (sb_buf s) + length d then sb_rollover s else s in
-      (sb_with s1 (f_write (sb_buf s1) d), ONone)
+  | Write d => (sb_write s d, ONone)
+  | WriteLines ds => (fold_left sb_write ds s, ONone)       (* for line in lines: self.write(line) *)
   | WriteBad => (s, OErr TypeError)
   | Read n => let '(b, o) := call (sb_buf s) (Read n) in (sb_with s b, o)
   | ReadLine lim => let '(s', d) := sb_readline s lim in (s', OData d)
@@ -436,6 +440,7 @@ Definition ss_ok (s : sstring) : bool := rd_ok (ef_rd (ss_buf s)).
 Definition ss_step0 (s : sstring) (op : fop) : sstring * fobs :=
   match op with
   | Write d => (ss_write s d, ONone)
+  | WriteLines ds => (fold_left ss_write ds s, ONone)
   | WriteBad => (s, OErr TypeError)
   | Read n => let '(s', d) := ss_read s n in (s', OData d)
   | ReadLine None => let '(s', d) := ss_readline s in (s', OData d)
@@ -519,5 +524,9 @@ Definition is_line_op (op : fop) : bool :=
   match op with ReadLine _ | ReadLines _ | Next | ListAll | IterAll => true | _ => false end.
 Definition odd_break (c : N) : bool := is_ubrk c && negb (N.eqb c 10).
 Definition writes_odd_break (ops : list fop) : bool :=
-  existsb (fun op => match op with Write d => existsb odd_break d | _ => false end) ops.
+  existsb (fun op => match op with
+                     | Write d => existsb odd_break d
+                     | WriteLines ds => existsb (existsb odd_break) ds
+                     | _ => false
+                     end) ops.
 
